@@ -414,6 +414,20 @@ func runC13(r *mc.Run) {
 		add("trailing/inside-tcb-component", base, assemble(base, stdOrder, t, top), wantErrorOrExact)
 		add("trailing/tcb-19-elements", base, assemble(base, stdOrder, append(append([][]byte(nil), tcb...), tcb[0]), top), wantErrorOrExact)
 	}
+	// other but equivalent length encodings (BER long forms where DER wants the short form), one node at a time:
+	// every node of the extension re-encoded with a 0x81 / 0x82 length; and INTEGER values with a superfluous
+	// leading zero octet. A strict decoder refuses them; one that accepts must still give the encoded values
+	{
+		std := world.SGXExtension(base)
+		nodes := 0
+		c13Reencode(std, -1, 0, &nodes)
+		for k := 0; k < nodes; k++ {
+			for _, form := range []int{1, 2, 3} {
+				n := 0
+				add(fmt.Sprintf("length-form/node%d/%s", k, []string{"", "0x81", "0x82", "integer-leading-zero"}[form]), base, c13Reencode(std, k, form, &n), wantErrorOrExact)
+			}
+		}
+	}
 	// removed elements
 	for i, k := range stdOrder {
 		var order []string
@@ -645,4 +659,55 @@ func sgxHex(c c13case) string {
 		}
 	}
 	return ""
+}
+
+// c13Reencode walks the TLV tree of b (single-octet tags, definite lengths) and re-emits it with node `target`
+// (pre-order index) using another length form: 1 = 0x81 L, 2 = 0x82 00 L (when L < 256), 3 = (INTEGER only) a
+// superfluous leading zero octet in the value. counter receives the number of nodes.
+func c13Reencode(b []byte, target, form int, counter *int) []byte {
+	var out []byte
+	for len(b) >= 2 {
+		tag := b[0]
+		l, hdr := int(b[1]), 2
+		if b[1]&0x80 != 0 {
+			n := int(b[1] & 0x7f)
+			if n == 0 || n > 3 || len(b) < 2+n {
+				return append(out, b...)
+			}
+			l = 0
+			for _, x := range b[2 : 2+n] {
+				l = l<<8 | int(x)
+			}
+			hdr = 2 + n
+		}
+		if hdr+l > len(b) {
+			return append(out, b...)
+		}
+		content := b[hdr : hdr+l]
+		idx := *counter
+		*counter++
+		if tag&0x20 != 0 {
+			content = c13Reencode(content, target, form, counter)
+		}
+		if idx == target && form == 3 && tag == 0x02 {
+			content = append([]byte{0}, content...)
+		}
+		out = append(out, tag)
+		L := len(content)
+		switch {
+		case idx == target && form == 1 && L < 256:
+			out = append(out, 0x81, byte(L))
+		case idx == target && form == 2 && L < 65536:
+			out = append(out, 0x82, byte(L>>8), byte(L))
+		case L < 128:
+			out = append(out, byte(L))
+		case L < 256:
+			out = append(out, 0x81, byte(L))
+		default:
+			out = append(out, 0x82, byte(L>>8), byte(L))
+		}
+		out = append(out, content...)
+		b = b[hdr+l:]
+	}
+	return append(out, b...)
 }
